@@ -152,9 +152,9 @@ def design_level(pid, tier, seed, scale):
             stats.append(st)
             if not ok:
                 mach.append(('mc:' + cfg, 'JsonValMC law fails:\n' + out[-2500:]))
-    sim = P.get('sim', ('MC_sim.cfg', 100, 1500, 60))
-    if sim:
-        cfg, nq, nt, depth = sim
+    sims = P.get('sim', ('MC_sim.cfg', 100, 1500, 60))
+    sims = [] if not sims else [sims] if isinstance(sims, tuple) else list(sims)
+    for cfg, nq, nt, depth in sims:
         num = max(1, int((nq if tier == 'quick' else nt) * scale))
         hists, st, ok, errs = fromtlc.simulate_parallel(cfg, num, depth, seed)
         st['cfg'] = cfg + ' (simulate, 16 x num=%d depth=%d)' % (num, depth)
@@ -168,8 +168,9 @@ def design_level(pid, tier, seed, scale):
             import random
             random.Random(seed).shuffle(hists)
             hists = hists[:cap]
+        tag = cfg[3:-4] if cfg.startswith('MC_') else cfg
         for i, h in enumerate(hists):
-            scs.append(fromtlc.scenario_of(h, 'tlc-%s-%d-%d' % (pid, seed, i)))
+            scs.append(fromtlc.scenario_of(h, 'tlc-%s-%s-%d-%d' % (pid, tag, seed, i)))
     return stats, scs, mach
 
 
@@ -443,8 +444,11 @@ def run_property(pid, tier, seed, scale=1.0):
     if P.get('fault_units'):
         nq, nt, per_q, per_t = P['fault_units']
         n = int((nq if tier == 'quick' else nt) * scale)
-        scs += fault_variants(P.get('fault_profile', 'fault'), n, seed, per_q if tier == 'quick' else per_t, pid,
-                              P.get('fault_calls'))
+        fprofs = P.get('fault_profile', 'fault')
+        fprofs = [fprofs] if isinstance(fprofs, str) else list(fprofs)
+        for fp_ in fprofs:
+            scs += fault_variants(fp_, max(1, n // len(fprofs)), seed, per_q if tier == 'quick' else per_t, pid,
+                                  P.get('fault_calls'))
         assume.append('fault space = the library\'s own mkdir/makedirs/rename/cache-open/cache-write calls issued '
                       'before commit or rollback starts (C14 statement); one fault per execution')
     if P.get('thread_units'):
@@ -453,6 +457,10 @@ def run_property(pid, tier, seed, scale=1.0):
         fp = P.get('full_pairs', (0, 0))
         scs += schedule_variants(P.get('thread_profile', 'threads'), n, seed, sq if tier == 'quick' else st_,
                                  pq if tier == 'quick' else pt, pid, fp[0] if tier == 'quick' else fp[1])
+        for prof, xq, xt, xsq, xst, xpq, xpt, xfq, xft in P.get('thread_extra', []):
+            scs += schedule_variants(prof, int((xq if tier == 'quick' else xt) * scale), seed,
+                                     xsq if tier == 'quick' else xst, xpq if tier == 'quick' else xpt, pid,
+                                     xfq if tier == 'quick' else xft)
         assume += ['schedules = preemptions at measured yield points (interposed OS calls, lock acquire/release) of '
                    'real threads under a cooperative scheduler; preemptions inside pure Python code between yield '
                    'points are not explored',
